@@ -348,13 +348,31 @@ class Impl:
         return store
 
     def es_store(self, docs):
-        """A real EsMetricsStore (opened for reading) over a fake search client that evaluates the store's requests against docs."""
-        fake = esquery.FakeSearchEs(docs)
+        """Two real EsMetricsStores over one fake Elasticsearch, used in the order of a race with datastore.type = elasticsearch:
+        race control opens its store, the load driver opens its own, writes the records batch by batch and sends each batch WITHOUT
+        refresh (Driver.post_process_samples: flush(refresh=False)); when the benchmark is complete race control adds what it was
+        handed (nothing: an Elasticsearch store has no externalizable form), flushes and calculates the results from ITS store.
+        The fake makes written documents searchable with the next refresh only and evaluates the searches against them."""
+        import pickle
+        import zlib
+
+        fake = esquery.FakeSearchEs([])
         client_factory, template_provider = esquery.factories(fake)
-        st = self.metrics.EsMetricsStore(self.cfg, client_factory_class=client_factory, index_template_provider_class=template_provider)
-        st.open(RACE_ID, datetime.datetime(2020, 1, 2, 3, 4, 5), "verif-track", "verif-challenge", ["defaults"], create=False)
+        ts = datetime.datetime(2020, 1, 2, 3, 4, 5)
+        reader = self.metrics.EsMetricsStore(self.cfg, client_factory_class=client_factory, index_template_provider_class=template_provider)
+        reader.open(RACE_ID, ts, "verif-track", "verif-challenge", ["defaults"], create=True)
+        writer = self.metrics.EsMetricsStore(self.cfg, client_factory_class=client_factory, index_template_provider_class=template_provider)
+        writer.open(RACE_ID, ts, "verif-track", "verif-challenge", ["defaults"], create=True)
+        docs = list(docs)
+        nb = 1 + len(docs) % 3
+        per = -(-len(docs) // nb) if docs else 1
+        for i in range(0, max(len(docs), 1), per):
+            writer.bulk_add(zlib.compress(pickle.dumps(docs[i : i + per])))
+            writer.flush(refresh=False)
+        reader.bulk_add(writer.to_externalizable(clear=True))
+        reader.flush()
         self._fakes.append(fake)
-        return st
+        return reader
 
     def add_telemetry(self, store, k):
         """Every other system metric GlobalStatsCalculator gathers (not described by the model): they take part in the
